@@ -9,6 +9,7 @@ import (
 	"strings"
 	"sync"
 	"testing"
+	"time"
 
 	"github.com/apmckinlay/gsuneido/core"
 	"github.com/apmckinlay/gsuneido/dbms/mux"
@@ -289,6 +290,7 @@ func genScript(t *rapid.T) []op {
 type tranH struct {
 	t      core.ITran
 	update bool
+	serial int // creation order: the same on both sides
 }
 
 type queryH struct {
@@ -326,6 +328,10 @@ type side struct {
 	// asynchronously, so the request at which a doomed transaction notices
 	// its abort would otherwise depend on timing, on either side)
 	barrier func()
+	active  func() []int // the served database's active update transactions (read directly)
+	// involved is the serial of the transaction the current request used (0 = none)
+	involved int
+	ntrans   int
 }
 
 var tranNumRx = regexp.MustCompile(`\b([ur]t)\d+\b`)
@@ -411,13 +417,32 @@ func (s *side) closeTran(th *tranH) {
 	s.qs = keep
 }
 
+// waitGone waits (watchdog 10 s) until none of the update transactions nums
+// is active in the served database.
+func (s *side) waitGone(nums []int) bool {
+	for i := 0; i < 100000; i++ {
+		active := s.active()
+		gone := true
+		for _, n := range nums {
+			for _, a := range active {
+				gone = gone && a != n
+			}
+		}
+		if gone {
+			return true
+		}
+		time.Sleep(100 * time.Microsecond)
+	}
+	return false
+}
+
 // exec runs one op and returns its normalised, comparable result.
 func (s *side) exec(o op) (res string) {
 	if s.dead {
 		return "dead"
 	}
-	const skip = "skip"
 	var r string
+	s.involved = 0
 	errstr := s.call(func() { r = s.exec1(o) })
 	if s.barrier != nil {
 		s.barrier()
@@ -439,10 +464,12 @@ func (s *side) exec1(o op) string {
 		if len(s.trans) == 0 {
 			return nil
 		}
-		if o.H < 0 {
-			return s.trans[len(s.trans)-1]
+		t := s.trans[len(s.trans)-1]
+		if o.H >= 0 {
+			t = s.trans[o.H%len(s.trans)]
 		}
-		return s.trans[o.H%len(s.trans)]
+		s.involved = t.serial
+		return t
 	}
 	pickQ := func() *queryH {
 		if len(s.qs) == 0 {
@@ -451,6 +478,9 @@ func (s *side) exec1(o op) string {
 		q := s.qs[len(s.qs)-1]
 		if o.H >= 0 {
 			q = s.qs[o.H%len(s.qs)]
+		}
+		if q.tran != nil {
+			s.involved = q.tran.serial
 		}
 		if q.broken {
 			return nil
@@ -462,8 +492,9 @@ func (s *side) exec1(o op) string {
 		d.Admin(o.S, s.sv)
 		return "ok"
 	case "tran":
+		s.ntrans++
 		t := d.Transaction(o.B)
-		s.trans = append(s.trans, &tranH{t: t, update: o.B})
+		s.trans = append(s.trans, &tranH{t: t, update: o.B, serial: s.ntrans})
 		return "tran " + numRx.ReplaceAllString(t.String(), "")
 	case "commit":
 		t := pickT()
@@ -512,6 +543,7 @@ func (s *side) exec1(o op) string {
 				t = s.trans[o.H2%len(s.trans)]
 			}
 			q.tran = t
+			s.involved = t.serial
 			row, tbl = q.c.Get(th, t.t, dir)
 		} else {
 			row, tbl = q.q.Get(th, dir)
@@ -710,15 +742,23 @@ func (s *side) exec1(o op) string {
 	case "newsession":
 		// end the session (aborting what it has open) and continue on a new
 		// one over the same connection
+		var nums []int
 		for _, t := range append([]*tranH(nil), s.trans...) {
 			if s.newSes == nil {
 				t.t.Abort()
+			} else if t.update {
+				nums = append(nums, t.t.Num())
 			}
 			s.closeTran(t)
 		}
 		s.qs = nil
 		if s.newSes != nil {
 			d.Close() // EndSession: the server aborts the session's transactions
+			// EndSession is not answered and other sessions' requests are
+			// served by other workers: wait until its effect is there
+			if !s.waitGone(nums) {
+				return fmt.Sprint("EndSession did not abort the session's update transactions ", nums)
+			}
 			s.d = s.newSes()
 			s.th = core.NewThread(nil)
 			s.th.SetDbms(s.d)
@@ -833,9 +873,14 @@ func TestC40(t *testing.T) {
 	defer rec.Write()
 	defer leakReport(rec, 0)()
 
-	rt.Check(t, rec, "differential", 400, 3000, func(t *rapid.T) { differential40(t, rec) })
-	rt.Check(t, rec, "concurrent", 100, 1000, func(t *rapid.T) { concurrent40(t, rec) })
-	rt.Check(t, rec, "muxecho", 100, 1500, func(t *rapid.T) { muxEcho40(t, rec) })
+	// (a failed part ends the run: shrinking three parts costs minutes)
+	if !rt.Check(t, rec, "differential", 400, 3000, func(t *rapid.T) { differential40(t, rec) }) {
+		return
+	}
+	if !rt.Check(t, rec, "concurrent", 100, 500, func(t *rapid.T) { concurrent40(t, rec) }) {
+		return
+	}
+	rt.Check(t, rec, "muxecho", 100, 1000, func(t *rapid.T) { muxEcho40(t, rec) })
 }
 
 func newSides(t *rapid.T, big bool, f frag) (loc, rem *side, srvL, srvR *server, c *client) {
@@ -857,6 +902,7 @@ func newSides(t *rapid.T, big bool, f frag) (loc, rem *side, srvL, srvR *server,
 	thR.SetDbms(rd)
 	rem = &side{name: "remote", d: rd, th: thR, call: c.call, newSes: newSes}
 	rem.barrier = func() { srvR.db.Transactions() }
+	rem.active = func() []int { return srvR.db.Transactions() }
 	return
 }
 
@@ -876,14 +922,39 @@ func differential40(t *rapid.T, rec *ev.Rec) {
 
 	resL := make([]string, 0, len(ops))
 	resR := make([]string, 0, len(ops))
+	invL := make([]int, 0, len(ops))
 	for _, o := range ops {
 		resL = append(resL, loc.exec(o))
+		invL = append(invL, loc.involved)
 	}
+	// The database reports a transaction's reads and writes to its conflict
+	// checker asynchronously, so the request at which a transaction that loses
+	// a conflict starts failing depends on timing (on either side). Once a
+	// transaction has been aborted by a conflict on one side, the results of
+	// its further requests are not compared, but it must not commit on the
+	// other side either.
+	doomed := map[int]bool{}
+	ndoomed := 0
 	for i, o := range ops {
 		r := rem.exec(o)
 		resR = append(resR, r)
+		tr := invL[i]
+		if tr != 0 && tr == rem.involved && !doomed[tr] &&
+			(strings.Contains(r, "transaction aborted") || strings.Contains(resL[i], "transaction aborted")) {
+			doomed[tr] = true
+			ndoomed++
+		}
+		if tr != 0 && tr == rem.involved && doomed[tr] {
+			if o.K == "commit" && (r == "commit " || resL[i] == "commit ") {
+				t.Fatalf("request %d (%v): transaction aborted by a conflict on one side commits on the other\n direct: %s\n client: %s", i, o, resL[i], r)
+			}
+			continue
+		}
 		if r != resL[i] {
 			var sb strings.Builder
+			if f := takeServerFatals(); len(f) > 0 {
+				fmt.Fprintf(&sb, "server: %q\n", f)
+			}
 			for j := 0; j <= i; j++ {
 				fmt.Fprintf(&sb, "  %2d %-50s => %s\n", j, ops[j], resL[j])
 			}
@@ -930,6 +1001,7 @@ func differential40(t *rapid.T, rec *ev.Rec) {
 	updCommit, multipart, kinds := stats40(ops, resL)
 	rec.Case(updCommit && multipart > 0, fmt.Sprint(ops))
 	rec.LabelIf(updCommit, "diff_update_committed")
+	rec.LabelN("diff_transactions_aborted_by_conflict", ndoomed)
 	rec.LabelIf(multipart > 0, "diff_multipart_message")
 	rec.LabelN("diff_multipart_messages", multipart)
 	rec.LabelIf(f.fragmented(), "diff_fragmented")
@@ -1031,7 +1103,8 @@ func concurrent40(t *rapid.T, rec *ev.Rec) {
 		d, _ := c.newSession()
 		th := core.NewThread(nil)
 		th.SetDbms(d)
-		r := &side{name: "remote", d: d, th: th, call: c.call, newSes: func() core.IDbms { d, _ := c.newSession(); return d }}
+		r := &side{name: "remote", d: d, th: th, call: c.call, newSes: func() core.IDbms { d, _ := c.newSession(); return d },
+			active: func() []int { return srvR.db.Transactions() }}
 		wg.Add(1)
 		go func() {
 			defer wg.Done()
@@ -1044,16 +1117,20 @@ func concurrent40(t *rapid.T, rec *ev.Rec) {
 	close(start)
 	wg.Wait()
 	multi := 0
+	fatals := takeServerFatals()
 	for i := range scripts {
 		for j := range scripts[i] {
 			if got[i][j] != want[i][j] {
-				t.Fatalf("session %d of %d, request %d (%v):\n alone, direct: %s\n concurrent, client: %s", i, ns, j, scripts[i][j], want[i][j], got[i][j])
+				t.Fatalf("session %d of %d, request %d (%v):\n alone, direct: %s\n concurrent, client: %s\n%q", i, ns, j, scripts[i][j], want[i][j], got[i][j], fatals)
 			}
 		}
 		_, mp, _ := stats40(scripts[i], want[i])
 		if mp > 0 {
 			multi++
 		}
+	}
+	if len(fatals) > 0 {
+		t.Fatalf("the server called Fatal / panicked while serving well-formed clients: %q", fatals)
 	}
 	if dL, dR := dumpDb(srvL), dumpDb(srvR); dL != dR {
 		t.Fatalf("database contents differ after %d concurrent sessions\ndirect:\n%s\nclient:\n%s", ns, dL, dR)
